@@ -99,6 +99,33 @@ def run(ctx):
     got = {k: {x for x in v if x[2] != "err"} for k, v in table.items()}
     ctx.check(got == want, "C16.auth_header", "C16.auth_header:table", w.where(f), bad_msg=f"{ {k: sorted(v) for k, v in got.items() if want.get(k) != v} }")
 
+    # which SendAccessToken variants hand out their token, per getter (the other half of the table above: a user token passed as IfRequired
+    # must not reach an appservice-only endpoint, and only Always is sent where no authentication is asked for)
+    GETTERS = {"get_required_for_endpoint": {"IfRequired", "Appservice", "Always"}, "get_not_required_for_endpoint": {"Always"},
+               "get_required_for_appservice": {"Appservice", "Always"}}
+    adt_sat = w.adts[API + "SendAccessToken"]
+    all_vars = {v["name"] for v in adt_sat["variants"]}
+    dexg = D.Dex(w.lookup, adt_discr=w.adt_discr, ctors=w.ctors, inline=lambda n: "{closure" in n)
+    for gname, want_some in GETTERS.items():
+        cands = [g for g in w.all_fns() if re.fullmatch(re.escape(API) + r"SendAccessToken(::<[^>]*>)?::" + gname, g["path"]) and "body" in g]
+        if len(cands) != 1:
+            ctx.missing("C16.auth_header", f"C16.auth_header:getter:{gname}", f"SendAccessToken::{gname} not found")
+            continue
+        fg = cands[0]
+        gp = [p for p in dexg.paths(fg, [D.sym("self")]) if p.kind == "ret"]
+        got_some, bad_g = set(), []
+        for var in sorted(all_vars):
+            val = lambda a, var=var: (a[2] == var) if a[0] == "variant" and D.show(a[1]) == "self" else None
+            sel = D.evaluate(gp, val)
+            outs = {D.show(p.ret) for p in sel}
+            if outs == {f"Option::Some(self.{var}.0)"}:
+                got_some.add(var)
+            elif outs != {"Option::None"}:
+                bad_g.append((var, sorted(outs)))
+        ctx.check(not bad_g and got_some == want_some, "C16.auth_header", f"C16.auth_header:getter:{gname}", w.where(fg),
+                  bad_msg=f"SendAccessToken::{gname} hands out the token for {sorted(got_some)} (documented: {sorted(want_some)}){' ; undecided: ' + str(bad_g) if bad_g else ''}: "
+                          f"the Authorization header is then not the one the endpoint's AuthScheme prescribes for that kind of token")
+
     # ---- METADATA -----------------------------------------------------------------------------------------------
     ctx.rule("C16.metadata", "every endpoint's METADATA: all unstable and stable paths carry the same placeholders in the same order; paths start with '/'")
     metas = {k: v["v"] for k, v in w.values.items() if k.endswith("::METADATA") and isinstance(v["v"], dict) and v["v"].get("adt", "").endswith("metadata::Metadata")}
